@@ -2347,3 +2347,136 @@ func typeTestsItsArgument(h *ssa.Function) bool {
 	}
 	return true
 }
+
+// unitLoopTrips: the number of times the instruction runs, when it sits in a counted loop of one of the
+// shapes `for i := a; i < b; i++`, `for i := a; i <= b; i++`, `for i := a; i > b; i--`, `for i := a; i >= b; i--`
+// with loop-invariant bounds, the loop is left only through its header (no break / return / goto out of
+// the body) and the instruction's block dominates every latch (no continue around it). The result is the
+// canonical rendering of the trip count ("(a - b)" style, with a zero bound dropped); ok is false for
+// every other shape — callers treat that as undecided, never as a pass.
+func unitLoopTrips(w *World, in ssa.Instruction) (string, bool) {
+	h := loopOf(in)
+	if h == nil {
+		return "", false
+	}
+	body := loopBlocks(h)
+	// exits only from the header; the instruction runs on every iteration
+	for b := range body {
+		for _, s := range b.Succs {
+			if !body[s] && b != h {
+				return "", false
+			}
+		}
+		if r := b.Instrs[len(b.Instrs)-1]; b != h {
+			if _, ret := r.(*ssa.Return); ret {
+				return "", false
+			}
+			if _, pn := r.(*ssa.Panic); pn {
+				return "", false
+			}
+		}
+	}
+	for _, p := range h.Preds {
+		if body[p] && !in.Block().Dominates(p) {
+			return "", false
+		}
+	}
+	if in.Block() == h {
+		return "", false
+	}
+	iff, ok := h.Instrs[len(h.Instrs)-1].(*ssa.If)
+	if !ok {
+		return "", false
+	}
+	cond, ok := iff.Cond.(*ssa.BinOp)
+	if !ok {
+		return "", false
+	}
+	// the true edge stays in the loop
+	if !body[h.Succs[0]] || body[h.Succs[1]] {
+		return "", false
+	}
+	invariant := func(v ssa.Value) bool {
+		switch x := v.(type) {
+		case *ssa.Const, *ssa.Parameter, *ssa.FreeVar:
+			return true
+		case ssa.Instruction:
+			return !body[x.Block()] && x.Block().Dominates(h)
+		}
+		return false
+	}
+	phi, ok := cond.X.(*ssa.Phi)
+	bound := cond.Y
+	op := cond.Op
+	if !ok {
+		// bound OP i  ==  i OP' bound
+		phi, ok = cond.Y.(*ssa.Phi)
+		bound = cond.X
+		switch op {
+		case token.LSS:
+			op = token.GTR
+		case token.LEQ:
+			op = token.GEQ
+		case token.GTR:
+			op = token.LSS
+		case token.GEQ:
+			op = token.LEQ
+		}
+	}
+	if !ok || phi.Block() != h || !invariant(bound) || len(phi.Edges) != len(h.Preds) {
+		return "", false
+	}
+	var init ssa.Value
+	step := int64(0)
+	for i, e := range phi.Edges {
+		if body[h.Preds[i]] {
+			b, ok := e.(*ssa.BinOp)
+			if !ok || b.X != ssa.Value(phi) {
+				return "", false
+			}
+			k, isK := constInt(b.Y)
+			if !isK || k != 1 {
+				return "", false
+			}
+			var s int64
+			switch b.Op {
+			case token.ADD:
+				s = 1
+			case token.SUB:
+				s = -1
+			default:
+				return "", false
+			}
+			if step != 0 && step != s {
+				return "", false
+			}
+			step = s
+		} else {
+			if init != nil && init != e {
+				return "", false
+			}
+			init = e
+		}
+	}
+	if init == nil || step == 0 || !invariant(init) {
+		return "", false
+	}
+	// the induction variable is not assigned anywhere else: SSA guarantees that (phi has only the edges above)
+	diff := func(hi, lo ssa.Value) string {
+		if k, isK := constInt(lo); isK && k == 0 {
+			return w.expr(hi)
+		}
+		return "(" + w.expr(hi) + " - " + w.expr(lo) + ")"
+	}
+	switch {
+	case step == 1 && op == token.LSS:
+		return diff(bound, init), true
+	case step == 1 && op == token.LEQ:
+		return "(" + diff(bound, init) + " + 1)", true
+	case step == -1 && op == token.GTR:
+		return diff(init, bound), true
+	case step == -1 && op == token.GEQ:
+		return "(" + diff(init, bound) + " + 1)", true
+	}
+	return "", false
+}
